@@ -126,6 +126,7 @@ impl<'a> PGen<'a> {
             4 => num(-(self.rng.range(1, 9))),
             5 => numf("1_000"),
             6 => numf(*self.rng.pick(&["1234.5", "1e6", "0.00001", "123456789", "2500", "1e21"])),
+            7 => numf(*self.rng.pick(&["1.3", "0.7", "9.9", "1.01", "0.3", "2.675"])),
             _ => num(self.rng.range(0, 12)),
         }
     }
@@ -281,7 +282,16 @@ impl<'a> PGen<'a> {
                     let op = *self.rng.pick(ARITH);
                     bin(op, self.expr(T::Num, d1), self.expr(T::Num, d1))
                 }
-                5 => bin("^", self.expr(T::Num, d1), num(self.rng.range(0, 3))),
+                5 => {
+                    // powers: whole, larger, negative and fractional literal exponents
+                    let ex = match self.rng.below(6) {
+                        0 => numf("0.5"),
+                        1 => num(-(self.rng.range(1, 3))),
+                        2 => num(self.rng.range(4, 12)),
+                        _ => num(self.rng.range(0, 3)),
+                    };
+                    bin("^", self.expr(T::Num, d1), ex)
+                }
                 6 => E::Neg(Box::new(self.expr(T::Num, d1))),
                 7 => cond(self.expr(T::Bool, d1), self.expr(T::Num, d1), self.expr(T::Num, d1)),
                 8 => {
